@@ -153,6 +153,44 @@ theorem insert_never_panics' (s : Pkg) (tname : List Char) (rows : List (List Va
 
 /-! ### create_table, drop_table, flush -/
 
+theorem np_catalogRoomOne (s : Pkg) (catalog key name : List Char) (n : Nat) : NoPanic (catalogRoomOne s catalog key name n) := by
+  unfold catalogRoomOne
+  cases s.findTable catalog with
+  | none => exact np_ok _
+  | some t =>
+    simp only
+    cases hl : s.loadRows t with
+    | err k => exact np_err _
+    | panic w => exact absurd hl (np_loadRows s t w)
+    | ok rows =>
+      simp only
+      split
+      · exact np_err _
+      · cases t.indexOfColumn key with
+        | none => exact np_err _
+        | some i =>
+          simp only
+          split
+          · exact np_err _
+          · exact np_ok _
+
+theorem np_catalogRoom (s : Pkg) (name : List Char) (cols : List Column) : NoPanic (catalogRoom s name cols) := by
+  unfold catalogRoom
+  have h1 := np_catalogRoomOne s Gen.nameColumns.toList "Table".toList name cols.length
+  cases hr1 : catalogRoomOne s Gen.nameColumns.toList "Table".toList name cols.length with
+  | err k => exact np_err _
+  | panic w => exact absurd hr1 (h1 w)
+  | ok u =>
+    cases u
+    simp only
+    have h2 := np_catalogRoomOne s Gen.nameTables.toList "Name".toList name 1
+    cases hr2 : catalogRoomOne s Gen.nameTables.toList "Name".toList name 1 with
+    | err k => exact np_err _
+    | panic w => exact absurd hr2 (h2 w)
+    | ok u =>
+      cases u
+      exact np_catalogRoomOne s Gen.nameValidation.toList "Table".toList name cols.length
+
 /-- **`create_table` never panics** while the pool has room for the catalog strings of the new
 table: four per column in `_Columns`, one in `_Tables`, ten per column in `_Validation` -/
 theorem createTable_never_panics (s : Pkg) (name : List Char) (cols : List Column)
@@ -161,6 +199,12 @@ theorem createTable_never_panics (s : Pkg) (name : List Char) (cols : List Colum
   cases hce : createError s name cols with
   | some k => exact np_err _
   | none =>
+    simp only
+    cases hcr : catalogRoom s name cols with
+    | err k => exact np_err _
+    | panic w => exact absurd hcr (np_catalogRoom s name cols w)
+    | ok u =>
+    cases u
     simp only
     have hlenC : (catalogRowsColumns name cols).length = cols.length := by unfold catalogRowsColumns; simp
     have hlenV : (catalogRowsValidation name cols).length = cols.length := by unfold catalogRowsValidation; simp
